@@ -170,13 +170,13 @@ def run_property(pid, tier, seed, args):
     shape = {}
     for rp in reports:
         rep = rp.get('rep')
-        if rep is None or rep.source is None:
-            continue
+        if rep is None or rep.source is None or rp.get('error'):
+            continue            # undecided functions are reported as such, not compared
         kinds = {}
         for pth in rep.paths:
             key = pth['case'] + '/' + pth['kind']
             kinds[key] = kinds.get(key, 0) + 1
-        shape[rep.target + '#' + type(rp['contract']).__name__] = {'sha256': rep.source['sha256'], 'paths': kinds,
+        shape[rep.target + '#' + type(rp['contract']).__name__] = {'sha256': rep.source.get('closure_sha256', rep.source['sha256']), 'paths': kinds,
                                                                    'obligations': len(rep.obligations)}
     if lockdata and not args.write_lock:
         for tgt, now in shape.items():
